@@ -181,12 +181,19 @@ func (m *Model) Viable(n *Node) bool {
 	return (n.Just == m.Justified.Epoch || m.Justified.Epoch == 0) && (n.Fin == m.Finalized.Epoch || m.Finalized.Epoch == 0)
 }
 
-// walk returns the end of the best-child walk from n.
-func (m *Model) walk(n *Node) *Node {
+// walk returns the end of the best-child walk from n. Everything is recomputed from the votes and the tree on every
+// top-level call; memo only avoids evaluating the same sub-walk twice within that one call (the walk of a child is
+// needed once to decide viability and once more when the child wins).
+func (m *Model) walk(n *Node) *Node { return m.walkMemo(n, map[*Node]*Node{}) }
+
+func (m *Model) walkMemo(n *Node, memo map[*Node]*Node) *Node {
+	if end, ok := memo[n]; ok {
+		return end
+	}
 	var best *Node
 	var bestW int64
 	for _, c := range m.fcChildren(n) {
-		if !m.Viable(m.walk(c)) {
+		if !m.Viable(m.walkMemo(c, memo)) {
 			continue
 		}
 		w := m.Weight(c)
@@ -194,10 +201,12 @@ func (m *Model) walk(n *Node) *Node {
 			best, bestW = c, w
 		}
 	}
-	if best == nil {
-		return n
+	end := n
+	if best != nil {
+		end = m.walkMemo(best, memo)
 	}
-	return m.walk(best)
+	memo[n] = end
+	return end
 }
 
 func (m *Model) FindHead(root Root, slot Slot) (NodeRef, error) {
